@@ -4,8 +4,8 @@ import gens, blk, compcases as cc
 from capi import Lib, Buf
 from ctypes import c_int, byref
 
-THEOREMS = ["C06_fast_generic_strict", "C06_fast_extState_strict", "C06_fastReset_history_strict", "C06_destSize_strict", "C06_hc_mid_strict", "C06_hc_mid_destSize_strict", "C06_hc_chain_strict", "C06_hc_opt_strict"]
-CORRESPONDENCE = [cc.MID_CORR, cc.CHAIN_CORR, cc.CHAIN_SEARCH_CORR,
+THEOREMS = ["C06_fast_generic_strict", "C06_fast_extState_strict", "C06_fastReset_history_strict", "C06_destSize_strict", "C06_hc_mid_strict", "C06_hc_mid_destSize_strict", "C06_hc_chain_strict", "C06_hc_opt_strict", "C06_hc_chain_destSize_strict", "C06_hc_opt_destSize_strict"]
+CORRESPONDENCE = [cc.MID_CORR, cc.CHAIN_CORR, cc.CHAIN_SEARCH_CORR, cc.CHAIN_DICT_CORR,
                   "Model.FastApi one-shot entry points == liblz4 (bytes, return value, context) on the same cases"]
 ORACLES = ["block", "mid", "chain"]
 RULE = ("every successful output of {default, fast, extState, fastReset history, destSize, HC one-shot levels 1..12 (+favorDecSpeed), HC destSize, "
